@@ -1,0 +1,30 @@
+//go:build verif
+
+// Contracts for the deductive verifier in /verif (govc). Comment-only: this
+// file adds no code to the package. Syntax: /verif/DESIGN.md §2.3.
+
+package mqtt
+
+//@ func mqtt.stringCheck
+//@ ensures[C09] (result == nil) == (len(s) <= 65535 && utf8ok(arr(s), off(s), len(s)) && !hasnul(arr(s), off(s), len(s)))
+//@ ensures[C09] result != nil ==> (result == errStringMax || result == errUTF8 || result == errNull)
+//@ ensures[C09] result == errStringMax ==> len(s) > 65535
+
+//@ func mqtt.topicCheck
+//@ ensures[C09] (result == nil) == (len(s) > 0 && len(s) <= 65535 && utf8ok(arr(s), off(s), len(s)) && !hasnul(arr(s), off(s), len(s)))
+//@ ensures[C09] result != nil ==> (result == errZero || result == errStringMax || result == errUTF8 || result == errNull)
+
+//@ func mqtt.publishPacket -> r, err
+//@ loop 1: unroll 4
+//@ ensures[C09] (err != nil) == (len(topic) == 0 || len(topic) > 65535 || !utf8ok(arr(topic), off(topic), len(topic)) || hasnul(arr(topic), off(topic), len(topic)) || pubrem(len(topic), len(message), packetID) > 268435455)
+//@ ensures[C09] err != nil ==> (Is(err, errZero) || Is(err, errStringMax) || Is(err, errUTF8) || Is(err, errNull) || Is(err, errPacketMax))
+//@ ensures[C09] err == nil ==> len(r) == 2 && r[1] == message
+//@ ensures[C09] err == nil ==> len(r[0]) == 1 + vlen(pubrem(len(topic), len(message), packetID)) + 2 + len(topic) + ite(packetID != 0, 2, 0)
+//@ ensures[C09,C05] err == nil ==> r[0][0] == head
+//@ ensures[C09] err == nil ==> r[0][1] == vbyte(pubrem(len(topic), len(message), packetID), 0)
+//@ ensures[C09] err == nil && vlen(pubrem(len(topic), len(message), packetID)) > 1 ==> r[0][2] == vbyte(pubrem(len(topic), len(message), packetID), 1)
+//@ ensures[C09] err == nil && vlen(pubrem(len(topic), len(message), packetID)) > 2 ==> r[0][3] == vbyte(pubrem(len(topic), len(message), packetID), 2)
+//@ ensures[C09] err == nil && vlen(pubrem(len(topic), len(message), packetID)) > 3 ==> r[0][4] == vbyte(pubrem(len(topic), len(message), packetID), 3)
+//@ ensures[C09] err == nil ==> r[0][1+vlen(pubrem(len(topic), len(message), packetID))] == len(topic) / 256 && r[0][2+vlen(pubrem(len(topic), len(message), packetID))] == len(topic) % 256
+//@ ensures[C09] err == nil ==> seq_eq(arr(r[0]), off(r[0]) + 3 + vlen(pubrem(len(topic), len(message), packetID)), arr(topic), off(topic), len(topic))
+//@ ensures[C09] err == nil && packetID != 0 ==> r[0][len(r[0])-2] == (packetID / 256) % 256 && r[0][len(r[0])-1] == packetID % 256
